@@ -22,7 +22,7 @@ RULE = ("ASan+UBSan build of the tree. (1) harness streams of C01-C18 (scripts, 
         "non-trivial = the input passed argument parsing; distinct = distinct inputs")
 
 SAN_PAT = re.compile(rb"AddressSanitizer|runtime error:|LeakSanitizer|Assertion .* failed|terminate called|SUMMARY: UndefinedBehaviorSanitizer")
-ENV = {"ASAN_OPTIONS": "detect_leaks=0:abort_on_error=1:handle_abort=1", "UBSAN_OPTIONS": "halt_on_error=1:print_stacktrace=1"}
+ENV = {"ASAN_OPTIONS": "detect_leaks=0:abort_on_error=1:handle_abort=1", "UBSAN_OPTIONS": "halt_on_error=1:abort_on_error=1:print_stacktrace=1"}
 
 class Stub:
     def __init__(self, seed, tier):
@@ -89,6 +89,17 @@ def cli_cases(rng, n):
         b = bytes.fromhex(h)
         for _ in range(rng.randrange(1, 3)): b = T.mutate(rng, b)
         return b.hex()
+    # degenerate transactions: no inputs, no outputs, neither (plain and with the witness marker), one input without outputs - with a script on
+    # the command line, with a funding transaction, with tap (F53: a transaction without inputs crashed setup_environment)
+    degen = ["02000000000000000000", "0200000000010000000000", T.make_tx(2, [], [(1, b"\x51")], 0).hex(), T.make_tx(2, [(bytes(32), 0, b"", 0)], [], 0).hex(),
+             T.make_tx(2, [(bytes(32), 0xffffffff, b"\x51", 0xffffffff)], [(0, b"")], 0).hex(), "02000000" + "00" * 7, "0200000001" + "00" * 36]
+    for d in degen:
+        for c in spends[:2]:
+            out.append(("btcdeb", ["--tx=" + d, "[OP_1]"], None)); out.append(("btcdeb", ["--tx=" + d], b"[OP_1 OP_CHECKSIG]\n"))
+            out.append(("btcdeb", ["--tx=" + d, "--txin=" + c["fund"]], None)); out.append(("btcdeb", ["--tx=" + c["spend"], "--txin=" + d], None))
+            out.append(("btcdeb", ["--tx=1.5:" + d, "--select=0", "[OP_1]"], None))
+            out.append(("tap", ["--tx=" + d, "--txin=" + c["fund"], "f30544d6009c8d8d94f5d030b2e844b1a3ca036255161c479db1cca5b374dd1c", "1", "51", "0"], None))
+            out.append(("tap", ["--tx=" + c["spend"], "--txin=" + d, "f30544d6009c8d8d94f5d030b2e844b1a3ca036255161c479db1cca5b374dd1c", "1", "51"], None))
     for _ in range(n):
         r = rng.random()
         if r < 0.25:
@@ -151,7 +162,7 @@ def main(tier):
     dist = {}
     # ---- (1) harness streams under the sanitizers
     streams = harvest(chk.seed, chk.tier)
-    cap = 1500 if q else 20000
+    cap = 30000 if q else 120000      # (whole boundary grids of C10 / C17 must fit: the crash cases are a few operand tuples out of tens of thousands)
     total_crash = 0
     for name, lines in sorted(streams.items()):
         if not lines:
@@ -231,6 +242,15 @@ def main(tier):
         c = S.build(rng, rng.choice(["p2pkh", "p2sh", "p2wsh", "p2tr-script"]))
         argv = rng.choice([["[OP_1 OP_2 OP_ADD OP_IF OP_DUP OP_ENDIF]"], ["0x5152935387"], ["--tx=" + c["spend"], "--txin=" + c["fund"]], ["[OP_1 OP_TOALTSTACK 0x0102 OP_SHA256]", "0x05"]])
         sessions.append((argv, repl_cmds(rng, rng.choice([4, 8, 16]))))
+    # walks over scripts whose operations fail or THROW (script-number overflow, non-minimal number, bad opcode, disabled opcode, unbalanced
+    # conditional): step to and past the failure, rewind further than the start, step again, exec in between
+    for scr in ["[OP_1 0x0102030405 OP_ADD]", "[OP_1 0x0100 OP_ADD OP_2]", "[OP_1 OP_IF OP_2 OP_2 OP_MUL OP_ENDIF]", "[OP_0 OP_IF OP_xba OP_ENDIF OP_1 OP_VERIFY OP_RETURN]",
+                "[OP_1 OP_IF]", "[0x0102030405 OP_1ADD OP_1]", "[OP_DUP]", "[OP_1 OP_2 OP_3 OP_ROLL OP_PICK]", "0x4c", "[OP_1 OP_TOALTSTACK OP_FROMALTSTACK OP_FROMALTSTACK]"]:
+        for _ in range(2 if q else 12):
+            k = rng.randrange(1, 6)
+            walk = ["step"] * k + ["rewind"] * (k + rng.randrange(0, 3)) + ["print", "step", "step", "rewind", "exec OP_1 OP_ADD", "rewind", "rewind", "print", "stack"]
+            if rng.random() < 0.5: rng.shuffle(walk)
+            sessions.append(([scr] + rng.choice([[], ["0x0102030405"], ["-1"]]), walk))
     def run_pty(t):
         argv, cmds = t
         try:
